@@ -512,6 +512,74 @@ def rand_locpath_for(rng, doc, profile=FULL):
     return ''.join(steps)
 
 
+def rand_fragpath(rng, with_tests=False):
+    """a path SimplePathStrategy supports with 2-3 fragments over the names of the deep documents
+    (`a` twice as likely as `b`, so that fragments overlap themselves: `a/a/b`, and some long enough
+    for a border of a border: `a/a/b/a/a/a`), entered through descendant:: / descendant-or-self::,
+    sometimes with a `self::` step or a final attribute / text() step"""
+    names = ['a', 'a', 'b']
+    out = ''
+    frs = []
+    nfr = rng.choice([2, 2, 3])
+    for k in range(nfr):
+        tests = [rng.choice(names) for _ in range(rng.choice([1, 2, 2, 3, 3, 5, 6]))]
+        steps = []
+        for j, t in enumerate(tests):
+            steps.append(t)
+            if rng.random() < 0.05:
+                steps.append('self::' + (t if rng.random() < 0.8 else rng.choice(names)))
+        if k == nfr - 1 and rng.random() < 0.12:
+            steps.append(rng.choice(['text()', 'comment()']))
+            tests = tests + [steps[-1]]
+        body = '/'.join(steps)
+        if k == 0:
+            lead = rng.choice(['', '', '', 'self::', 'descendant::', '//', 'descendant-or-self::'])
+            out = lead + body
+        else:
+            out += '/' + rng.choice(['descendant::', 'descendant::', 'descendant-or-self::']) + body
+        frs.append(tests)
+    if rng.random() < 0.1:
+        out += '/@' + rng.choice(ATTR_NAMES)
+    return (out, frs) if with_tests else out
+
+
+def chain_doc(rng, frs):
+    """a document that is (mostly) one chain of nested elements spelled from the fragments themselves:
+    for each fragment some junk, a proper prefix of the fragment, then the whole fragment — the text on
+    which a KMP matcher has to fall back inside a partial match; a few side branches"""
+    seq = []
+    for f in frs:
+        for _ in range(rng.choice([0, 0, 1, 2])):
+            seq.append(rng.choice(['a', 'a', 'b']))
+        names = [x for x in f if not x.endswith(')')]
+        if len(names) > 1 and rng.random() < 0.8:
+            seq.extend(names[:rng.randrange(1, len(names))])
+        seq.extend(names)
+    leaf = None
+    if frs and frs[-1] and frs[-1][-1].endswith(')'):
+        leaf = {'t': 'x'} if frs[-1][-1] == 'text()' else {'c': 'x'}
+    seq = seq[:24]
+    if rng.random() < 0.5:
+        seq = [rng.choice(['a', 'b'])] + seq       # the context node
+    node = None
+    for name in reversed(seq):
+        kids = [] if node is None else [node]
+        if node is None and leaf is not None:
+            kids = [leaf]
+        if rng.random() < 0.15:
+            kids.append({'e': ['', rng.choice(['a', 'b'])], 'a': _rand_attrs(rng), 'k': []})
+        node = {'e': ['', name], 'a': _rand_attrs(rng), 'k': kids}
+    return node if node is not None else {'e': ['', 'a'], 'a': [], 'k': []}
+
+
+def rand_fragcase(rng):
+    """(document, path) aimed at SimplePathStrategy's hand-over between fragments and its KMP fall-back"""
+    text, frs = rand_fragpath(rng, with_tests=True)
+    if rng.random() < 0.5:
+        return chain_doc(rng, frs), text
+    return rand_doc(rng, rng.choice([9, 12, 16]), deep=True), text
+
+
 def rand_path_for(rng, doc, profile=FULL):
     t = rand_locpath_for(rng, doc, profile)
     while rng.random() < profile.get('union', 0):
